@@ -82,7 +82,13 @@ type world struct {
 
 func newWorld(varInit []int, setInit [][]int) *world {
 	w := &world{}
-	for _, v := range varInit {
+	for i, v := range varInit {
+		if i%2 == 1 {
+			// every second input rewrites what is written to it (a clamp to 0..2): whoever derives from it has to work
+			// with the value the variable holds, not with the value the writer passed in
+			w.vars = append(w.vars, reactive.NewVariable[int](func(_ int, n int) int { return min(max(n, 0), 2) }).Init(v))
+			continue
+		}
 		w.vars = append(w.vars, reactive.NewVariable[int]().Init(v))
 	}
 	for _, s := range setInit {
@@ -572,7 +578,7 @@ func genInputs(t *rapid.T) ([]int, [][]int) {
 const checkGraphSeq = "graph_sequential"
 
 func TestGraphSeq(t *testing.T) {
-	stats.Rule(checkGraphSeq, "rapid draws 2-4 input Variables[int], 2-3 input Sets[int] (universe 0..5) with initial values and 1-16 actions: writes (Set/Compute on a variable; Add/Delete/AddAll/DeleteAll/Apply/Compute/Replace on a set) and structural actions (create DerivedVariable1/2/3 with a linear compute function, Variable.InheritFrom, Counter with 0-3 monitored inputs and default / threshold condition or a condition that holds for the zero value (< 2, == 0, even), DerivedSet.InheritFrom(1-3 sources), SubtractReactive(source, others); inputs may be earlier nodes; unsubscribe a derived variable; Monitor / unsubscribe a monitored input; InheritFrom another group / drop a group). Oracle after every action: each node == its defining function of the current Get()/ToSlice() of its inputs. Preconditions kept: no cycles, an input is monitored by one counter at most once at a time, an unsubscribe function is called once. Non-trivial = >=2 writes after the first node exists. Distinct by action list.")
+	stats.Rule(checkGraphSeq, "rapid draws 2-4 input Variables[int] (every second one created with a transformation function that clamps written values to 0..2), 2-3 input Sets[int] (universe 0..5) with initial values and 1-16 actions: writes (Set/Compute on a variable; Add/Delete/AddAll/DeleteAll/Apply/Compute/Replace on a set) and structural actions (create DerivedVariable1/2/3 with a linear compute function, Variable.InheritFrom, Counter with 0-3 monitored inputs and default / threshold condition or a condition that holds for the zero value (< 2, == 0, even), DerivedSet.InheritFrom(1-3 sources), SubtractReactive(source, others); inputs may be earlier nodes; unsubscribe a derived variable; Monitor / unsubscribe a monitored input; InheritFrom another group / drop a group). Oracle after every action: each node == its defining function of the current Get()/ToSlice() of its inputs. Preconditions kept: no cycles, an input is monitored by one counter at most once at a time, an unsubscribe function is called once. Non-trivial = >=2 writes after the first node exists. Distinct by action list.")
 	rapid.Check(t, func(rt *rapid.T) {
 		p := graphSeqProg{}
 		p.VarInit, p.SetInit = genInputs(rt)
